@@ -29,7 +29,7 @@ def plan(tier, seed):
     types = sorted(spec.load())
     n = 4 if tier == "quick" else 16
     return [{"tier": tier, "seed": seed, "shard": i, "types": types[i::n], "edits": 60 if tier == "quick" else 200,
-             "rounds": 2 if tier == "quick" else 4} for i in range(n)]
+             "rounds": 2 if tier == "quick" else 12} for i in range(n)]
 
 
 # ------------------------------------------------------------------ alias scan
